@@ -103,6 +103,14 @@ fn own_table(i: usize, rc: &Rc<u8>) {
     }
 }
 
+/// the trace contract (Verus: `trace_result`) is a function of the tables only: the counters of every object are
+/// arbitrary live values, so any dependence of the result on them (early exits, filters) is refuted
+fn sym_counters(rc: &Rc<u8>) {
+    let (s, w): (usize, usize) = (kani::any(), kani::any());
+    kani::assume(s != usize::MAX);
+    set_counts(rc, s, w);
+}
+
 fn put(i: usize, l: Link<u8>, c: usize) {
     unsafe {
         if let Some(t) = &TBL[i] {
@@ -120,6 +128,8 @@ fn u4_trace_ring2() {
     let b = Rc::new(2u8);
     own_table(0, &a);
     own_table(1, &b);
+    sym_counters(&a);
+    sym_counters(&b);
     // concrete multiplicities: with symbolic ones the same harness needs > 14 GB (DESIGN.md 12.5)
     let (k, j): (usize, usize) = (2, 1);
     put(0, fwd(&b), k);
@@ -143,6 +153,8 @@ fn u4_trace_outside_owner() {
     let c = Rc::new(3u8);
     own_table(0, &a);
     own_table(1, &c);
+    sym_counters(&a);
+    sym_counters(&c);
     let (k, l): (usize, usize) = (2, 3);
     put(0, fwd(&a), k);
     put(0, bwd(&a), k);
@@ -169,6 +181,9 @@ fn u4_trace_two_owners() {
     own_table(0, &t);
     own_table(1, &a);
     own_table(2, &b);
+    sym_counters(&t);
+    sym_counters(&a);
+    sym_counters(&b);
     put(0, fwd(&a), 1);
     put(1, bwd(&t), 1);
     put(0, fwd(&b), 1);
@@ -197,6 +212,9 @@ fn u4_trace_chain3() {
     own_table(0, &a);
     own_table(1, &b);
     own_table(2, &c);
+    sym_counters(&a);
+    sym_counters(&b);
+    sym_counters(&c);
     put(0, fwd(&b), 1);
     put(1, bwd(&a), 1);
     put(1, fwd(&c), 2);
